@@ -192,6 +192,8 @@ def part_c(ctx, I, budget):
             n_rows = rng.randint(n_units, n_units + 5)
             groups = gen.rand_groups(rng, n_rows, n_units)
         pool = rng.sample(range(-20, 60), c)
+        if it % 4 == 1:
+            pool = [0] + rng.sample(range(2, 15), c - 1)        # integer labels starting at 0 with gaps: not yet class indices
         y_train = [rng.choice(pool) for _ in range(n_rows)]
         classes = sorted(set(y_train))
         y_test = [rng.choice(classes) for _ in range(m)]
